@@ -296,7 +296,7 @@ def raw_id(G, label=None):
 
 # ---------------------------------------------------------------------------------------------- canonical signature
 
-def signature(G, label=None, full=True):
+def signature(G, label=None, full=True, init=True):
     """Canonical signature as a nested tuple (hashable, comparable).
 
     It contains: the type identifier; for a task output the signature of the producing task; the sorted
@@ -367,7 +367,7 @@ def signature(G, label=None, full=True):
         pre.extend(G["nodes"][l].get("pre", []))
     pre = list(dict.fromkeys(pre))
     n = G["nodes"][label]
-    return ("full", s, tuple(sorted((sig(p, ()) for p in pre), key=repr)), tuple(sig(i, ()) for i in n.get("init", [])))
+    return ("full", s, tuple(sorted((sig(p, ()) for p in pre), key=repr)), tuple(sig(i, ()) for i in (n.get("init", []) if init else [])))
 
 
 # ---------------------------------------------------------------------------------------------- schema consistency
